@@ -49,7 +49,7 @@ class _Scheduler(object):
         It contains an entry for every variable in self.__dict__ which
         is not the optimizer.
         """
-        return {key: value for key, value in self.__dict__.items() if key != 'optimizer'}
+        return {key: value for key, value in self.__dict__.items() if key not in ('optimizer', 'continual')}
 
     def load_state_dict(self, state_dict):
         """Loads the schedulers state.
@@ -59,6 +59,12 @@ class _Scheduler(object):
                 from a call to :meth:`state_dict`.
         """
         self.__dict__.update(state_dict)
+        self.continual = self.Continual(self)
+
+    def __setstate__(self, state):
+        # copy.copy / pickle: the continual() wrapper has to be bound to this scheduler, not to the source
+        self.__dict__.update(state)
+        self.continual = self.Continual(self)
 
 
 class StopOnPlateau(_Scheduler):
